@@ -1,8 +1,8 @@
 SPECIFICATION Spec
 CONSTANTS
   Mains <- M2
-  Reqs <- U2
-  Cap = 4
+  Reqs <- U2q
+  Cap = 3
   MaxH = 3
   Desig0 <- DK1
   DesigChoices <- DNone
